@@ -82,3 +82,23 @@ def advance_to_us(us):
     if d > 0:
         gevent.sleep(d)
     drain()
+
+
+def kill_stragglers():
+    """End every greenlet a finished script left behind (retry loops, ping loops, receive loops),
+    except the process-wide timer-queue workers, so that scripts run in one worker process do not
+    disturb each other."""
+    import gc
+    import scales.timer_queue as tq
+    keep = {id(tq.GLOBAL_TIMER_QUEUE._worker), id(tq.LOW_RESOLUTION_TIMER_QUEUE._worker), id(gevent.getcurrent())}
+    n = 0
+    for o in gc.get_objects():
+        try:
+            if isinstance(o, gevent.Greenlet) and not o.dead and id(o) not in keep:
+                o.kill(block=False)
+                n += 1
+        except ReferenceError:
+            pass
+    drain()
+    take_errors()
+    return n
